@@ -15,13 +15,13 @@ LEVEL = 'exploration'
 RULE = ('part T: every ordered rooted tree with <=4 nodes x every assignment of {none,SkipChildren,SkipSiblings,'
         'SkipNode,SkipDeparture} to the main visitor\'s visit of each node x every subset of the four extension '
         'timings, for walk() and walkabout() (exhaustive), plus random trees <=12 nodes with several extensions per '
-        'timing; a walk is non-trivial if at least one pruning is raised and one extension is registered. part B: the '
+        'timing, also on a visitor that already walked once and got part of its extensions afterwards (ExtList.add); a walk is non-trivial if at least one pruning is raised and one extension is registered. part B: the '
         'real ASTBuilder/ModuleVistor (with its real extensions plus four recording extensions) on real and generated '
         'modules; a module is non-trivial if the main visitor raised SkipNode at least once in it.')
 ASSUME = ['the contract is the one written in the docstrings of pydoctor/visitor.py (vf/ref/visitor_ref.py)',
           'prunings raised by extensions are outside the statement and are not generated',
           'visits made through NodeVisitor.generic_visit are visit-only by design (judged for at-most-once only)']
-DECIDING = {'walks': 20000, 'builder_modules': 20, 'builder_events': 5000, 'builder_skipnode': 5, 'stack_checks': 20}
+DECIDING = {'walks': 20000, 'staged_walks': 1000, 'builder_modules': 20, 'builder_events': 5000, 'builder_skipnode': 5, 'stack_checks': 20}
 CPU_S = 900
 WHENS = ['BEFORE', 'AFTER', 'INNER', 'OUTTER']
 
@@ -170,8 +170,10 @@ def _build_tree(shape: Tuple) -> List[N]:
     return nodes
 
 
-def _walk_once(nodes: List[N], prun: List[str], ext_whens: List[str], mode: str):
-    """Run the real Visitor over the tree; return (actual trace, escaped exception or None)."""
+def _walk_once(nodes: List[N], prun: List[str], ext_whens: List[str], mode: str, staged: int = -1):
+    """Run the real Visitor over the tree; return (actual trace, escaped exception or None).
+    staged=k>=0: the first k extensions are registered at construction, one (unrecorded) walk is made, the remaining
+    extensions are added with ExtList.add and the judged walk follows on the same visitor."""
     from pydoctor import visitor
 
     class Main(visitor.Visitor):  # type: ignore[type-arg]
@@ -190,7 +192,16 @@ def _walk_once(nodes: List[N], prun: List[str], ext_whens: List[str], mode: str)
     ext_classes = []
     for i, w in enumerate(ext_whens):
         ext_classes.append(type(f'Ext{i}{w}', (visitor.VisitorExt,), {'when': getattr(visitor.When, w)}))
-    main = Main(visitor.ExtList(*ext_classes))
+    if staged < 0:
+        main = Main(visitor.ExtList(*ext_classes))
+    else:
+        main = Main(visitor.ExtList(*ext_classes[:staged]))
+        try:
+            getattr(main, mode)(nodes[0])
+        except Exception:  # noqa: BLE001 -- judged by the unstaged walks
+            pass
+        main.extensions.add(*ext_classes[staged:])
+        main.extensions.attach_visitor(main)
     ext_ids = {}
     for w in visitor.When:
         for e in main.extensions._visitors[w]:
@@ -211,11 +222,13 @@ def _walk_once(nodes: List[N], prun: List[str], ext_whens: List[str], mode: str)
     return trace, escaped, exts
 
 
-def _judge(res: core.Res, nodes: List[N], prun: List[str], ext_whens: List[str], mode: str) -> None:
-    trace, escaped, exts = _walk_once(nodes, prun, ext_whens, mode)
+def _judge(res: core.Res, nodes: List[N], prun: List[str], ext_whens: List[str], mode: str, staged: int = -1) -> None:
+    trace, escaped, exts = _walk_once(nodes, prun, ext_whens, mode, staged)
     res.c('walks')
+    if staged >= 0:
+        res.c('staged_walks')
     res.c('visitor_events', len(trace))
-    desc = {'tree': _shape_str(nodes[0]), 'pruning': prun, 'exts': ext_whens, 'mode': mode}
+    desc = {'tree': _shape_str(nodes[0]), 'pruning': prun, 'exts': ext_whens, 'mode': mode, 'extensions_registered_before_first_walk': staged}
     used = sorted({p for p in prun if p != ref.NONE})
     kinds = '+'.join(used) or 'none'
 
@@ -282,7 +295,11 @@ def _run_RT(case: Dict[str, Any], res: core.Res) -> None:
             x.ident = i
         prun = [r.choice(ref.PRUNINGS) if r.random() < .4 else ref.NONE for _ in range(n)]
         ext = [r.choice(WHENS) for _ in range(r.randint(0, 6))]
-        _judge(res, order, prun, ext, r.choice(['walk', 'walkabout', 'walkabout']))
+        mode = r.choice(['walk', 'walkabout', 'walkabout'])
+        _judge(res, order, prun, ext, mode)
+        if ext:
+            # the same visitor walks twice, part of the extensions being added in between
+            _judge(res, order, prun, ext, mode, staged=r.randint(0, len(ext) - 1))
     res.c('evaluations', case['n'])
 
 
